@@ -662,8 +662,8 @@ _compl = _pair('r4', 'completeness', (120, 300), 'channel present or not x frame
                ['LogicalFile.check_objects', 'LogicalFile._check_completeness', 'LogicalFile.add_frame', 'LogicalFile.add_channel'])
 _foreign = _pair('r4', 'foreign_channel', (120, 300), 'two logical files (own set names): a frame of the second lists a channel object of the first, in place of / in addition to its own',
                  ['LogicalFile._check_channels_assigned_to_frames', 'LogicalFile.check_objects'])
-_rejorig = _pair('r4', 'rejected_origin', (200, 400), 'first add_origin rejected (bad creation time; explicit reference < 2**30 or default), 0..2 objects, valid add_origin (explicit / default): all objects and the header carry the valid reference',
-                 ['LogicalFile.add_origin', 'LogicalFile.default_origin_reference'])
+_rejorig = _pair('r4', 'rejected_origin', (200, 400), 'first add_origin rejected for one of 9 reasons (creation time, file set number 2.5 / text / list, unknown keyword, other attributes of a wrong type; explicit reference < 2**30 or default), 0..2 objects, valid add_origin (explicit / default reference, own name or the rejected one): all objects and the header carry the valid reference; the ORIGIN set holds the valid origin only, copy 0',
+                 ['LogicalFile.add_origin', 'LogicalFile.default_origin_reference', 'OriginItem.__init__'], shards=(9, 9))
 _enumhist = _pair('r4', 'soft_enum_history', (120, 300), '4 soft enumerations: a non-member converted twice (same / second converter) in modes m1, m2: each call judged by the mode in force',
                   ['ValidatorEnum.make_converter'])
 _chext = _pair('r4', 'channel_extremes', (200, 400), 'index channel declaring MINIMUM-VALUE / MAXIMUM-VALUE; 1..3 rows of values 0..60000: INDEX-MIN / INDEX-MAX are those of the rows',
@@ -683,8 +683,22 @@ for _p, _o in (('C01', _sulre), ('C14', _sulre), ('C09', _fhlate), ('C14', _fhla
 # cross-registrations: the writer loop and the buffer decide "any size is writable / survives" as much as the segmenter
 SPECS['C15']['obligations'] = SPECS['C15']['obligations'] + _find('C10', 'ob_glue') + _find('C10', 'reach_glue')
 SPECS['C16']['obligations'] = SPECS['C16']['obligations'] + _find('C10', 'ob_buffer_step') + _find('C10', 'reach_buffer_step') + _find('C10', 'wit_buffer_two_flushes')
+# C12: a write that returns normally has unique object identities - the copy-number obligations of C07
+SPECS['C12']['obligations'] = SPECS['C12']['obligations'] + _find('C07', 'ob_copy_origin') + _find('C07', 'reach_copy_origin') + _find('C07', 'ob_copy_step') + _find('C07', 'reach_copy_step')
+_ofirst = _pair('c09', 'origin_first', (200, 400), 'every add_* method of LogicalFile (20, by introspection) as the call before add_origin and / or after it, named set or not: FILE-HEADER, then the one ORIGIN set, then the rest (finite, exhaustive)',
+                ['DLISFile.generator', 'LogicalFile.add_origin', 'EFLRSetsDict.get_or_make_set'], replay=R + 'order:replay_origin_first', validate=R + 'order:replay_origin_first', shards=(4, 4))
+SPECS['C09']['obligations'] = SPECS['C09']['obligations'] + _ofirst
+# C04 / C07: the IDENT / OBNAME encoders are part of "every record decodes" and of "every reference resolves"
+SPECS['C04']['obligations'] = SPECS['C04']['obligations'] + _find('C06', 'ob_ident_len') + _find('C06', 'reach_ident_len') + _find('C06', 'ob_obname') + _find('C06', 'reach_obname') + _find('C06', 'ob_obname_edges')
+SPECS['C07']['obligations'] = SPECS['C07']['obligations'] + _find('C06', 'ob_obname') + _find('C06', 'reach_obname') + _find('C06', 'ob_obname_edges') + _find('C06', 'ob_ident_len') + _find('C06', 'reach_ident_len')
 for _p in ('C01', 'C02', 'C16'):
     SPECS[_p]['obligations'] = SPECS[_p]['obligations'] + _find('C10', 'ob_buffer_file') + _find('C10', 'reach_buffer_file')
+# C16: "payloads come back exactly" includes their way through the segmenter: the provenance part of the segment contract
+# (body ranges contiguous, complete, in order; successor flag cleared exactly on the last segment) and the K2 loop step
+SPECS['C16']['obligations'] = (SPECS['C16']['obligations'] + _find('C01', 'ob_seg_contract') + _find('C01', 'reach_seg_contract')
+                               + _find('C01', 'wit_seg_three_shortened_padded') + _find('C01', 'k2_segment_step'))
+SPECS['C16']['outside'] = [o for o in SPECS['C16']['outside'] if 'segmentation is C02' not in o] + ['record bodies longer than SEG_K*cap+30 for engine A (K2 covers the loop step for all lengths)']
+SPECS['C16']['functions'] = SPECS['C16']['functions'] + SEG_FUNCS
 SPECS['C04']['obligations'] = SPECS['C04']['obligations'] + _find('C06', 'ob_text_codepoints') + _find('C06', 'reach_text_codepoints')
 for _p in ('C15', 'C16'):
     SPECS[_p]['stubs'] = SPECS[_p]['stubs'] + ['RopeArray / MemWriter (buffer and file stand-ins)']
